@@ -406,25 +406,24 @@ class ConditionLike:
                     pre_proc_str = spec_key_split[1]
                     pre_proc_str = PRE_PROC_LOOKUP.get(pre_proc_str, pre_proc_str)
                     if pre_proc_str == "dtype" and spec_val is not None:
+
+                        def to_type(i):
+                            # convert type names to types (other kinds of argument, e.g.
+                            # the tolerance of `equal_to_approx`, are not type names)
+                            if isinstance(i, str):
+                                return DTYPE_LOOKUP[i.lower()]
+                            elif isinstance(i, type):
+                                return DTYPE_LOOKUP[i]
+                            return i
+
                         try:
-                            # convert strings to types
                             if isinstance(spec_val, list):
-                                spec_val = [
-                                    DTYPE_LOOKUP[i.lower() if isinstance(i, str) else i]
-                                    for i in spec_val
-                                ]
+                                spec_val = [to_type(i) for i in spec_val]
                             elif isinstance(spec_val, dict):
                                 # keyword arguments
-                                spec_val = {
-                                    k: DTYPE_LOOKUP[i.lower() if isinstance(i, str) else i]
-                                    for k, i in spec_val.items()
-                                }
+                                spec_val = {k: to_type(i) for k, i in spec_val.items()}
                             else:
-                                spec_val = DTYPE_LOOKUP[
-                                    spec_val.lower()
-                                    if isinstance(spec_val, str)
-                                    else spec_val
-                                ]
+                                spec_val = to_type(spec_val)
                         except KeyError:
                             raise MalformedConditionLikeSpec(
                                 f"Data type {spec_val!r} is not understood. Available data "
